@@ -110,6 +110,35 @@ func (e *Enc) loopCandidates(f *Frame, li *loopInfo) []*Clause {
 			}
 		}
 	}
+	// pairs: integer phi bounded by the length of a string/slice phi of the same header
+	var intPhis, seqPhis []*ssa.Phi
+	for _, in := range h.Instrs {
+		phi, ok := in.(*ssa.Phi)
+		if !ok {
+			break
+		}
+		switch e.sortOf(phi.Type()) {
+		case SInt:
+			if b, ok := phi.Type().Underlying().(*types.Basic); ok && b.Info()&types.IsInteger != 0 && b.Kind() != types.Int32 {
+				intPhis = append(intPhis, phi)
+			}
+		case SStr, SSlice:
+			seqPhis = append(seqPhis, phi)
+		}
+	}
+	for _, ip := range intPhis {
+		for _, sp := range seqPhis {
+			ip, sp := ip, sp
+			addC(fmt.Sprintf("%s <= len(%s)", phiName(ip), phiName(sp)), func(get func(ssa.Value) (Term, bool), st *State) (Term, bool) {
+				v, ok := get(ip)
+				w, ok2 := get(sp)
+				if w.Sort == SStr {
+					return le(v, sLen(w)), ok && ok2
+				}
+				return le(v, slLen(w)), ok && ok2
+			})
+		}
+	}
 	// upper bounds from comparisons in the loop: phi (+c) < X with X defined outside the loop
 	for b := range li.body {
 		for _, in := range b.Instrs {
@@ -243,4 +272,11 @@ func inferInvariants(P *Program, U *Universe, fn *ssa.Function, dir string, seed
 		}
 	}
 	return map[loopKey][]*Clause{}
+}
+
+func phiName(p *ssa.Phi) string {
+	if p.Comment != "" {
+		return p.Comment
+	}
+	return p.Name()
 }
